@@ -203,6 +203,10 @@ def solver_level(ctx, stop_first=False):
         # a screened run that does not start from zero induced potential: continued from a seed, and the SECOND solve() of one
         # solver object (the operators a run starts with are those of ITS initial potentials)
         dict(name="screening+seeded", dev="ring", td=False, seeded=True, o=dict(include_screening=True, screening_tolerance=1e-3, solve_time=0.03), lam=0.6),
+        # a run WITHOUT screening continued from a solution that was computed WITH screening (and one with a ramped field): its
+        # operators are those of the applied potential alone -- the seed's induced potential is no part of this run
+        dict(name="static+seeded-from-a-screened-solution", dev="ring", td=False, seeded="screened", o=dict(solve_time=0.03), lam=0.6),
+        dict(name="td+seeded-from-a-screened-solution", dev="ring", td=True, seeded="screened", o=dict(solve_time=0.03), lam=0.6),
         dict(name="screening+second-solve", dev="ring", td=False, twice=True, o=dict(include_screening=True, screening_tolerance=1e-3, solve_time=0.03), lam=0.6),
         # a sweep whose solvers are all CONSTRUCTED first and solved afterwards: each runs with operators of its own potential
         dict(name="static+another-solver-constructed-meanwhile", dev="bar", td=False, sweep=True, cur={"source": 2.0, "drain": -2.0}, o=dict(solve_time=0.03)),
@@ -268,7 +272,12 @@ def solver_level(ctx, stop_first=False):
                 raise KeyboardInterrupt()
             return o_eps(self, time)
 
-        seed_ = o_solve_plain(dev, opts, A, cfg.get("cur")) if cfg.get("seeded") else None  # (computed before the hooks go in)
+        seed_ = None  # (computed before the hooks go in)
+        if cfg.get("seeded") == "screened":
+            seed_ = o_solve_plain(dev, runs.options(**dict(dict(solve_time=0.03, dt_init=5e-3, adaptive=False, save_every=100, include_screening=True, screening_tolerance=1e-3))), 0.5, cfg.get("cur"))
+            ctx.count("unscreened_runs_continued_from_a_screened_seed", int(np.any(np.asarray(seed_.tdgl_data.induced_vector_potential) != 0)))
+        elif cfg.get("seeded"):
+            seed_ = o_solve_plain(dev, opts, A, cfg.get("cur"))
         TDGLSolver.update, TDGLSolver.update_applied_vector_potential, TDGLSolver.get_induced_vector_potential, TDGLSolver.adaptive_euler_step = upd, app, ind, stp
         TDGLSolver.update_epsilon = eps_hook
         builtins.input = lambda *a, **k: "y"
